@@ -862,7 +862,8 @@ pub fn build(spec: &DistSpec) -> Result<Box<dyn Obj>, String> {
 /// Constructors can panic (known: Hypergeometric::new overflow). Catch that and
 /// report it as a constructor failure (C04 territory, not judged here).
 pub fn build_caught(spec: &DistSpec) -> Result<Box<dyn Obj>, String> {
-    match std::panic::catch_unwind(|| build(spec)) {
+    // constructors are not timed by the per-call hang watchdog (C05 is about sample())
+    match crate::runner::unwatched(|| std::panic::catch_unwind(|| build(spec))) {
         Ok(r) => r,
         Err(_) => Err(format!("{}: constructor panicked: {}", spec.label(), crate::runner::take_panic_message())),
     }
